@@ -41,6 +41,7 @@ const SCENARIOS: &[Scenario] = &[
     // command-line sessions) and one that begins with blanks (the `id <text>` command)
     Scenario { name: "bom-input", grammar: "a = { \"x\" } r = { \"\\u{feff}\" ~ a ~ a }", input: "\u{feff}xx", rule: "r", breakpoints: &["a"] },
     Scenario { name: "leading-blanks", grammar: "pad = { \" \" } a = { \"x\" } r = { pad* ~ a ~ a }", input: "  xx", rule: "r", breakpoints: &["pad", "a"] },
+    Scenario { name: "unicode-property-breakpoint", grammar: "w = { LETTER+ } r = { w ~ EOI }", input: "\u{e9}b", rule: "r", breakpoints: &["LETTER", "EOI"] },
     Scenario { name: "multibyte", grammar: "a = { \"é\" } r = { a ~ \"\\n\" ~ a ~ a }", input: "é\néé", rule: "r", breakpoints: &["a"] },
 ];
 
@@ -589,7 +590,7 @@ fn main() {
     cov.insert("states".into(), json!(states));
     cov.insert("transitions".into(), json!(states));
     cov.insert("traces_validated_against_impl".into(), json!(states));
-    cov.insert("rule".into(), json!("loom (DPOR, iterated preemption bound) on the real debugger/src/lib.rs rebound to loom primitives by build.rs: scripts S1 (run, receive/continue to the end), S2 (breakpoints edited while stopped), S3 (re-run after the first event), S4 (re-run immediately, precondition enforced exactly), S5 (run to the end, re-run), S6 (a surplus cont at the last stop, then re-run) x 12 grammar/input/breakpoint scenarios (two hits, nested hits, none, failing parse, single hit, hit in a repetition, breakpoints on built-ins / silent rules / implicit WHITESPACE / stack built-ins, multi-byte input) x channel capacity 1 (as the CLI) and 2 (S3/S4). In every execution: delivered events == the reference entries of the parse (S_doc on the optimized rules, every rule entry incl. built-ins; the VM's own listener trace is compared with it sequentially) filtered by the breakpoint set + Eof / the plain VM error text; try_recv between a breakpoint and its cont is empty; every run() returns and all threads terminate (loom reports blocked-forever threads). states = executions (complete interleavings) explored; each is a run of the real code"));
+    cov.insert("rule".into(), json!("loom (DPOR, iterated preemption bound) on the real debugger/src/lib.rs rebound to loom primitives by build.rs: scripts S1 (run, receive/continue to the end), S2 (breakpoints edited while stopped), S3 (re-run after the first event), S4 (re-run immediately, precondition enforced exactly), S5 (run to the end, re-run), S6 (a surplus cont at the last stop, then re-run) x 13 grammar/input/breakpoint scenarios (two hits, nested hits, none, failing parse, single hit, hit in a repetition, breakpoints on built-ins / silent rules / implicit WHITESPACE / stack built-ins, multi-byte input) x channel capacity 1 (as the CLI) and 2 (S3/S4). In every execution: delivered events == the reference entries of the parse (S_doc on the optimized rules, every rule entry incl. built-ins; the VM's own listener trace is compared with it sequentially) filtered by the breakpoint set + Eof / the plain VM error text; try_recv between a breakpoint and its cont is empty; every run() returns and all threads terminate (loom reports blocked-forever threads). states = executions (complete interleavings) explored; each is a run of the real code"));
     let v: Value = json!(bounds.iter().map(|b| b.map(|x| x.to_string()).unwrap_or("unbounded".into())).collect::<Vec<_>>());
     cov.insert("preemption_bounds".into(), v);
     verdict::conclude(verdict::Report {
